@@ -28,6 +28,15 @@ enum {
 #endif
 
 /* std::min<T>(a, b) / std::max<T>(a, b) */
+/* <math.h> rounding functions on a double used in a condition (cbmc 6.11's own library models of floor/ceil abort the symbolic
+ * execution under --dfcc: "l2_rename_rvalues case floatbv_typecast not handled"): an over-approximation -- some value r with
+ * r <= x < r + 1 (floor), x <= r < x + 1 (ceil), |r - x| < 1 (trunc / round); integrality of r is not stated, so a condition such
+ * as x == floor(x) may go either way for every finite x.  Only ever adds behaviours. */
+double nondet_verif_double(void);
+static inline double verif_floor(double x) { double r = nondet_verif_double(); __CPROVER_assume(x != x || x - x != 0 ? 1 : (r <= x && x - r < 1.0)); return (x != x || x - x != 0) ? x : r; }
+static inline double verif_ceil(double x) { double r = nondet_verif_double(); __CPROVER_assume(x != x || x - x != 0 ? 1 : (r >= x && r - x < 1.0)); return (x != x || x - x != 0) ? x : r; }
+static inline double verif_trunc(double x) { double r = nondet_verif_double(); __CPROVER_assume(x != x || x - x != 0 ? 1 : (r - x < 1.0 && x - r < 1.0)); return (x != x || x - x != 0) ? x : r; }
+#define verif_round verif_trunc
 #define VERIF_MIN_T(T, a, b) ((T)(a) < (T)(b) ? (T)(a) : (T)(b))
 #define VERIF_MAX_T(T, a, b) ((T)(a) > (T)(b) ? (T)(a) : (T)(b))
 
